@@ -37,6 +37,13 @@ var c16Scens = []c16Scen{
 	{Label: "page-slot-content-for-layout", Files: map[string]string{
 		"p.vuego":            "---\nlayout: main\n---\n<p data-m=\"w0\">page</p><template #side><b v-once data-m=\"m1\">s1</b><b v-once data-m=\"m2\">s2</b></template>",
 		"layouts/main.vuego": `<main><aside><slot name="side"></slot></aside></main>`}, WantFile: map[string]int{"m1": 1, "m2": 1, "w0": 0}},
+	{Label: "page-slot-content-and-layout-elements", Files: map[string]string{
+		"p.vuego":            "---\nlayout: main\n---\n<p data-m=\"w0\">page</p><template #side><b v-once data-m=\"m1\">s1</b><b v-once data-m=\"m2\">s2</b></template>",
+		"layouts/main.vuego": `<main><i v-once data-m="m3">own</i><aside><slot name="side"></slot></aside><u v-once data-m="m4">own2</u></main>`}, WantFile: map[string]int{"m1": 1, "m2": 1, "m3": 1, "m4": 1, "w0": 0}},
+	{Label: "page-slot-content-before-layout-elements-in-a-chain", Files: map[string]string{
+		"p.vuego":             "---\nlayout: inner\n---\n<p data-m=\"w0\">page</p><template #side><b v-once data-m=\"m1\">s1</b></template>",
+		"layouts/inner.vuego": "---\nlayout: outer\n---\n<section><aside><slot name=\"side\"></slot></aside><i v-once data-m=\"m2\">inner-own</i></section>",
+		"layouts/outer.vuego": `<main><div v-html="content"></div><u v-once data-m="m3">outer-own</u></main>`}, WantFile: map[string]int{"m1": 1, "m2": 1, "m3": 1, "w0": 0}},
 	{Label: "page-slot-content-for-layout-in-loop", Files: map[string]string{
 		"p.vuego":            "---\nlayout: main\n---\n<p data-m=\"w0\">page</p><template #side><b v-once data-m=\"m1\">s1</b><i data-m=\"w1\"></i><b v-once data-m=\"m2\">s2</b></template>",
 		"layouts/main.vuego": `<main><aside v-for="i in items"><slot name="side"></slot></aside></main>`}, WantFile: map[string]int{"m1": 1, "m2": 1, "w0": 0, "w1": 3}},
